@@ -15,96 +15,85 @@ import json
 import os
 import re
 from ..runner import Result, CheckError
-from .. import absint_interp, bits, rules, flow
-from ..absint import Lin
+from .. import rules, flow, spi
 from .common import ctx
 
 PID = 'C13'
 RK = 'lora_phy::mod_traits::RadioKind'
 CHIPS = {'sx126x': '<lora_phy::sx126x::Sx126x<SPI, IV, C> as ' + RK + '>::', 'sx127x': '<lora_phy::sx127x::Sx127x<SPI, IV, C> as ' + RK + '>::'}
 TABLE_FILE = os.path.join(os.path.dirname(__file__), 'c13_table.json')
-HOOKS = ('SpiInterface::write', 'SpiInterface::write_with_payload', 'SpiInterface::read', 'SpiInterface::read_with_status')
 
 
-def norm_sym(name):
-    """stable name of an input: parameters keep their name, values read back from the chip become R, fields of variant
-    supplied objects keep the field name"""
-    if re.match(r'^p\d+_', name):
-        return re.sub(r'^p\d+_', '', name).replace('*', '')
-    m = re.search(r'\*\.([A-Za-z_0-9.]+)$', name)
-    if m:
-        return 'cfg.' + m.group(1)
-    if name.startswith(('u#', 'a#', 'r#', 't#')) or '[' in name:
-        return 'R'
-    return 'X'
+SX127X_VARIANTS = {'sx1276': 'lora_phy::sx127x::sx1276::Sx1276', 'sx1272': 'lora_phy::sx127x::sx1272::Sx1272'}
+SKIP_OPS = ('await_irq', 'reset')
+MAX_CASES = 16
 
 
-def fmt_byte(bl):
-    if all(e in (0, 1) for e in bl):
-        return '0x%02X' % sum(e << k for k, e in enumerate(bl))
-    out = []
-    for e in reversed(bl):
-        if e in (0, 1):
-            out.append(str(e))
-        elif e == bits.UNK:
-            out.append('?')
-        elif isinstance(e, tuple) and e[0] == 'i':
-            out.append('%s.%d' % (norm_sym(e[1]), e[2]))
-        elif isinstance(e, tuple) and e[0] == 'n':
-            out.append('~')
-        else:
-            out.append('?')
-    if all(x == '?' for x in out):
-        return 'any'
-    return '[' + ' '.join(out) + ']'
+def param_cases(prog, body):
+    """case split over the enum-typed parameters of an operation (RadioMode, Option<RadioMode>, RxMode, ...): one
+    analysis per combination of variants, so that values chosen by a match on the parameter stay correlated"""
+    from ..absint import parse_ty
+    dims = []
+    for i in range(1, body.argc + 1):
+        nm = body.local_name(i) or 'arg%d' % i
+        t = parse_ty(body.locals[i])
+        alts = None
+        if t[0] == 'adt' and t[1] == 'core::option::Option' and len(t[2]) == 1:
+            it = parse_ty(t[2][0])
+            if it[0] == 'adt' and (prog.adts.get(it[1]) or {}).get('kind') == 'Enum' and len(prog.adts[it[1]]['variants']) <= 8:
+                alts = [('None', lambda name, t=t: ('adt', t[1], frozenset([0]), {}, name, tuple(t[2])))]
+                for vi, v in enumerate(prog.adts[it[1]]['variants']):
+                    alts.append(('Some(%s)' % v['name'], lambda name, t=t, it=it, vi=vi: ('adt', t[1], frozenset([1]), {(1, '0'): ('adt', it[1], frozenset([vi]), {}, name + '.v1.0', tuple(it[2]))}, name, tuple(t[2]))))
+        elif t[0] == 'adt' and (prog.adts.get(t[1]) or {}).get('kind') == 'Enum' and len(prog.adts[t[1]]['variants']) <= 8:
+            alts = [(v['name'], lambda name, t=t, vi=vi: ('adt', t[1], frozenset([vi]), {}, name, tuple(t[2]))) for vi, v in enumerate(prog.adts[t[1]]['variants'])]
+        if alts:
+            dims.append((i, nm, alts))
+    cases = [[]]
+    for (i, nm, alts) in dims:
+        if len(cases) * len(alts) > MAX_CASES:
+            continue
+        cases = [cs + [(i, nm, lab, mk)] for cs in cases for (lab, mk) in alts]
+    return cases
 
 
-def slice_bytes(an, st, v, frame):
-    if v[0] != 'sref':
-        return ['<not a slice>']
-    n = v[3]
-    if not n.is_const():
-        return ['<%s bytes>' % norm_sym(str(n).split('.len')[0]) if n.single() else '<n bytes>']
-    bv = bits.BitView(an, st)
-    out = []
-    for i in range(n.k):
-        e = an.read_elem(v, Lin.const(i), frame, st)
-        lin = an.as_int(e, st) if e is not None else None
-        out.append('any' if lin is None else fmt_byte(bv.lin_bits(lin, 'u8')))
+def op_transactions(prog, body, subst=None):
+    out = {}
+    for case in param_cases(prog, body):
+        def setup(an_, fr, st, case=case):
+            for (i, nm, lab, mk) in case:
+                st.env[(fr.id, i)] = mk('p%d_%s' % (i, nm))
+            for i in range(1, body.argc + 1):
+                if body.local_name(i) == 'mdltn_params' and body.locals[i].startswith('&'):
+                    # ModulationParams.low_data_rate_optimize is 0 or 1: the only constructor is create_modulation_params (decided by C15)
+                    sym = 'p%d_mdltn_params*.low_data_rate_optimize' % i
+                    st.lo[sym], st.hi[sym] = 0, 1
+        lab = ','.join('%s=%s' % (nm, lab) for (i, nm, lab, mk) in case)
+        out[lab] = [k for k, _ in spi.transactions(prog, body, setup=setup, subst=subst)]
     return out
-
-
-def transactions(prog, body):
-    an = absint_interp.new_analyzer(prog, max_depth=6)
-    rec = []
-
-    def hook(an_, t, args, frame, st, nm):
-        kind = nm.split('::')[-1]
-        tx = [kind, slice_bytes(an_, st, args[1], frame)]
-        if kind == 'write_with_payload' and len(args) > 2:
-            tx.append(slice_bytes(an_, st, args[2], frame))
-        rec.append(json.dumps(tx))
-    for k in HOOKS:
-        an.call_hooks[k] = hook
-    if (prog.fns.get(body.raw_path) or {}).get('async'):
-        absint_interp.analyze_async_entry(an, body)
-    else:
-        an.analyze_entry(body)
-    return sorted(set(rec))
 
 
 def extract(c):
     prog = c.prog
     out = {}
+    n_ops = 0
     for chip, pre in sorted(CHIPS.items()):
         names = sorted(p for p in prog.by_short if p.startswith(pre) and not p.endswith('}') and 'promoted' not in p)
         if len(names) < 20:
             raise CheckError('floor: RadioKind methods of %s: %d < 20' % (chip, len(names)))
         for n in names:
             m = n[len(pre):]
-            if m.startswith('create_') or m in ('await_irq', 'reset'):
+            if m.startswith('create_') or m in SKIP_OPS:
                 continue
-            out['%s::%s' % (chip, m)] = transactions(prog, prog.by_short[n][0])
+            n_ops += 1
+            variants = sorted(SX127X_VARIANTS.items()) if chip == 'sx127x' else [(chip, None)]
+            for vn, vty in variants:
+                for lab, txs in op_transactions(prog, prog.by_short[n][0], {'C': vty} if vty else None).items():
+                    out['%s::%s%s' % (vn, m, '{%s}' % lab if lab else '')] = txs
+    # operations that are the same for both SX127x variants are listed once
+    for k in sorted(out):
+        if k.startswith('sx1276::') and out.get('sx1272::' + k[8:]) == out[k]:
+            out['sx127x::' + k[8:]] = out.pop(k)
+            del out['sx1272::' + k[8:]]
     return out
 
 
@@ -139,36 +128,97 @@ def code_tables(c):
     return out
 
 
-def freq_formula(c, res):
-    """SX126x: steps = (f / 15625) << 14 + (((f - (f / 15625) * 15625) << 14) + 7812) / 15625  (reference driver, 32 MHz crystal)"""
-    from ..rules import term_of_operand, term_str
-    bf = c.bf('lora_phy::sx126x::Sx126x::convert_freq_in_hz_to_pll_step')
-    rets = [s for b in bf.body.blocks if not b.cleanup for s in b.stmts if s.k == 'assign' and s.lhs.is_local() and s.lhs.local == 0]
-    t = None
-    if len(rets) == 1:
-        s = rets[0]
-        t = term_of_operand(bf, s.rv.ops[0]) if s.rv.k == 'use' else ((s.rv.d['op'], term_of_operand(bf, s.rv.ops[0]), term_of_operand(bf, s.rv.ops[1])) if s.rv.k == 'bin' else None)
-    f = ('param', 1)
-    q = ('Div', f, ('const', 15625))
-    want = ('Add', ('Shl', q, ('const', 14)), ('Div', ('Add', ('Shl', ('Sub', f, ('Mul', q, ('const', 15625))), ('const', 14)), ('const', 7812)), ('const', 15625)))
+def _norm_formula(x):
+    """normal form of an integer term: overflow-checked operators as their plain form, casts dropped, constants folded,
+    f - (f / k) * k as f % k, x << n as x * 2^n, commutative arguments ordered"""
+    if not isinstance(x, tuple) or not x:
+        return x
+    if x[0] == 'cast':
+        return _norm_formula(x[2])
+    if x[0] in ('const', 'param'):
+        return x
+    h = {'AddWithOverflow': 'Add', 'SubWithOverflow': 'Sub', 'MulWithOverflow': 'Mul', 'ShlUnchecked': 'Shl', 'ShrUnchecked': 'Shr', 'AddUnchecked': 'Add', 'SubUnchecked': 'Sub', 'MulUnchecked': 'Mul'}.get(x[0], x[0])
+    if h not in ('Add', 'Sub', 'Mul', 'Div', 'Rem', 'Shl', 'Shr'):
+        return x
+    a, b = _norm_formula(x[1]), _norm_formula(x[2])
+    if a[0] == 'const' and b[0] == 'const':
+        f = {'Add': lambda p, q: p + q, 'Sub': lambda p, q: p - q, 'Mul': lambda p, q: p * q, 'Div': lambda p, q: p // q if q else None, 'Rem': lambda p, q: p % q if q else None,
+             'Shl': lambda p, q: p << q, 'Shr': lambda p, q: p >> q}[h](a[1], b[1])
+        if f is not None:
+            return ('const', f)
+    if h == 'Shl' and b[0] == 'const':
+        h, b = 'Mul', ('const', 1 << b[1])
+    if h == 'Sub' and b[0] == 'Mul':
+        for q, k in ((b[1], b[2]), (b[2], b[1])):
+            if q == ('Div', a, k):
+                return ('Rem', a, k)
+    if h in ('Add', 'Mul') and repr(a) > repr(b):
+        a, b = b, a
+    return (h, a, b)
 
-    def norm(x):
-        if not isinstance(x, tuple):
-            return x
-        if x and x[0] in ('cast',):
-            return norm(x[2])
-        if x and x[0] in ('cdef', 'constx'):
-            return x
-        h = {'AddWithOverflow': 'Add', 'SubWithOverflow': 'Sub', 'MulWithOverflow': 'Mul', 'ShlUnchecked': 'Shl', 'ShrUnchecked': 'Shr'}.get(x[0], x[0])
-        y = tuple([h] + [norm(a) for a in x[1:]])
-        if h == 'Shr' and y[1] == ('const', 15625) and y[2] == ('const', 1):
-            return ('const', 7812)
-        if h in ('Add', 'Mul') and repr(y[1]) > repr(y[2]):
-            y = (h, y[2], y[1])
-        return y
-    ok = t is not None and norm(t) == norm(want)
-    res.require(ok, 'C13:sx126x:rf-frequency-formula', 'RF frequency to PLL steps is not the reference formula (f/15625 << 14) + (((f mod 15625) << 14) + 7812) / 15625: %s' % (term_str(t)[:200] if t else None),
-                bf.body.path, 'SPEC-SHAPE(reference conversion)', instance='SX126x: PLL steps = reference integer formula (32 MHz crystal, 2^25 scaling)')
+
+def _return_term(bf):
+    from ..rules import term_of_operand
+    rets = [s for b in bf.body.blocks if not b.cleanup and b.idx in bf.cfg.reach for s in b.stmts if s.k == 'assign' and s.lhs.is_local() and s.lhs.local == 0]
+    if len(rets) != 1:
+        return None
+    s = rets[0]
+    if s.rv.k == 'use':
+        return term_of_operand(bf, s.rv.ops[0])
+    if s.rv.k == 'bin':
+        return (s.rv.d['op'], term_of_operand(bf, s.rv.ops[0]), term_of_operand(bf, s.rv.ops[1]))
+    if s.rv.k == 'cast':
+        return ('cast', s.rv.d['ty'], term_of_operand(bf, s.rv.ops[0]), s.rv.d.get('from'))
+    return None
+
+
+# Semtech reference (sx126x.c / sx127x.c, *_convert_freq_in_hz_to_pll_step): with SCALED = XTAL >> (RES - SHIFT),
+#   steps = ((f / SCALED) << SHIFT) + ((((f - (f / SCALED) * SCALED) << SHIFT) + (SCALED >> 1)) / SCALED)
+FREQ_FORMULAS = {
+    'sx126x': ('lora_phy::sx126x::Sx126x::convert_freq_in_hz_to_pll_step', 14, 32000000 >> (25 - 14), 25),
+    'sx127x': ('lora_phy::sx127x::freq_to_pll_step', 8, 32000000 >> (19 - 8), 19),
+}
+
+
+def freq_formula(c, res):
+    from ..rules import term_str
+    for chip, (fn, shift, scaled, resol) in sorted(FREQ_FORMULAS.items()):
+        bf = c.bf(fn)
+        t = _return_term(bf)
+        f = ('param', 1)
+        q = ('Div', f, ('const', scaled))
+        want = ('Add', ('Shl', q, ('const', shift)), ('Div', ('Add', ('Shl', ('Sub', f, ('Mul', q, ('const', scaled))), ('const', shift)), ('const', scaled >> 1)), ('const', scaled)))
+        # the same function written in one wide division: (f * 2^RES + XTAL / 2) / XTAL (equal for every integer f)
+        want2 = ('Div', ('Add', ('Mul', f, ('const', 1 << resol)), ('const', 16000000)), ('const', 32000000))
+        ok = t is not None and _norm_formula(t) in (_norm_formula(want), _norm_formula(want2))
+        res.require(ok, 'C13:%s:rf-frequency-formula' % chip,
+                    '%s: RF frequency to PLL steps is not the reference conversion ((f / %d) << %d) + ((((f mod %d) << %d) + %d) / %d) (round to nearest step): %s' % (chip, scaled, shift, scaled, shift, scaled >> 1, scaled, term_str(t)[:200] if t else None),
+                    bf.body.path, 'SPEC-SHAPE(reference conversion)', instance='%s: PLL steps = reference integer formula (32 MHz crystal, shift %d, rounding to nearest)' % (chip, shift))
+
+
+def _bits_of(tok):
+    if tok == 'any':
+        return ['?'] * 8
+    if tok.startswith('0x'):
+        v = int(tok, 16)
+        return [str((v >> k) & 1) for k in range(7, -1, -1)]
+    if tok.startswith('['):
+        return tok[1:-1].split(' ')
+    return [tok]
+
+
+def byte_refines(got, want):
+    """every bit the reference fixes (constant, named input bit, kept chip bit) is what the driver writes; bits the
+    reference leaves open ('?': arithmetic encodings not judged here) accept anything"""
+    g, w = _bits_of(got), _bits_of(want)
+    return len(g) == len(w) and all(y == '?' or x == y for x, y in zip(g, w))
+
+
+def tx_refines(got, want):
+    g, w = json.loads(got), (json.loads(want) if isinstance(want, str) else want)
+    if g[0] != w[0] or len(g) != len(w):
+        return False
+    return all(len(a) == len(b) and all(byte_refines(x, y) for x, y in zip(a, b)) for a, b in zip(g[1:], w[1:]))
 
 
 def run(tier):
@@ -177,7 +227,7 @@ def run(tier):
     got = extract(c)
     codes = code_tables(c)
     if os.environ.get('C13_DUMP'):
-        print(json.dumps({'transactions': got, 'codes': codes}, indent=1))
+        print(json.dumps({'transactions': {k: [json.loads(x) for x in v] for k, v in got.items()}, 'codes': codes}, indent=1))
         return res
     with open(TABLE_FILE) as f:
         want = json.load(f)
@@ -185,25 +235,27 @@ def run(tier):
     for op in sorted(set(got) | set(want['transactions'])):
         g, w = got.get(op), want['transactions'].get(op)
         if w is None:
-            res.violation('C13:%s:unlisted-operation' % op, 'operation %s issues SPI transactions %s but is not in the reference table' % (op, g), op, 'TABLE(transactions)')
+            res.require(not g, 'C13:%s:unlisted-operation' % op, 'operation case %s issues SPI transactions %s but has no entry in the reference table' % (op, g[:3]), op, 'TABLE(transactions)',
+                        instance='%s: no SPI traffic' % op)
             continue
         if g is None:
-            raise CheckError('anchor: operation %s of the reference table no longer exists' % op)
-        extra = [x for x in g if x not in w]
-        missing = [x for x in w if x not in g]
+            res.require(not w, 'C13:%s:operation-missing' % op, 'operation case %s of the reference table is no longer found in the driver' % op, op, 'TABLE(transactions)', instance=op)
+            continue
+        extra = [x for x in g if not any(tx_refines(x, y) for y in w)]
+        missing = [json.dumps(y) for y in w if not any(tx_refines(x, y) for x in g)]
         n_tx += len(g)
-        res.require(not extra and not missing, 'C13:%s:transactions' % op, '%s: SPI transactions differ from the reference table; not in the table: %s; no longer issued: %s' % (op, extra[:3], missing[:3]), op,
-                    'TABLE(SPI transactions: opcode / address, constants, argument bit placement, RMW masks)', instance='%s: %d transaction shape(s) as in the data sheet table' % (op, len(g)))
-    if n_tx < 120:
-        raise CheckError('floor: SPI transaction shapes extracted %d < 120' % n_tx)
+        res.require(not extra and not missing, 'C13:%s:transactions' % op, '%s: SPI transactions differ from the reference table; issued but not in the table: %s; in the table but no longer issued: %s' % (op, extra[:3], missing[:3]), op,
+                    'TABLE(SPI transactions: opcode / address, constants, argument bit placement, RMW masks)', instance='%s: %d transaction shape(s) as in the reference table' % (op, len(g)))
+    if n_tx < 250:
+        raise CheckError('floor: SPI transaction shapes extracted %d < 250' % n_tx)
     for key in sorted(set(codes) | set(want['codes'])):
         res.require(codes.get(key) == want['codes'].get(key), 'C13:%s:code-table' % key, 'parameter codes %s: %s (data sheet: %s)' % (key, codes.get(key), want['codes'].get(key)), key,
                     'TABLE(parameter codes over every enum value)', instance='%s codes as in the data sheet' % key)
     freq_formula(c, res)
-    res.coverage.update({'operations': len(got), 'transaction_shapes': n_tx, 'code_tables': sorted(codes), 'configs': [c.info],
-                         'not_decided': 'transaction order inside an operation; numeric value of bytes marked any (timeouts, symbol counts, power, image calibration); LR11xx'})
+    res.coverage.update({'operation_cases': len(got), 'transaction_shapes': n_tx, 'code_tables': sorted(codes), 'configs': [c.info],
+                         'not_decided': 'transaction order inside an operation; numeric value of bits marked ? / any (timeouts, symbol counts, power, image calibration, RF frequency words); LR11xx'})
     res.samples = [{'operation': k, 'transactions': [json.loads(x) for x in v][:3]} for k, v in sorted(got.items())[:4]]
     res.explanation = __doc__
-    res.assumptions = ['the reference table lrs/props/c13_table.json was reviewed against the Semtech data sheets (opcode names in its comments); it is the oracle',
-                       'bytes whose value is an arithmetic encoding are not judged (any)']
+    res.assumptions = ['the reference table lrs/props/c13_table.json was reviewed against the Semtech data sheets (opcode legend in the file); it is the oracle',
+                       'bits whose value is an arithmetic encoding are not judged (? / any)', 'ModulationParams.low_data_rate_optimize is 0 or 1 (its only constructor, decided by C15)']
     return res
